@@ -115,7 +115,7 @@ func refCovered(allow []Rule, q Rule) bool {
 	return false
 }
 
-func checkBoundedRBAC(allow []rbacv1.PolicyRule, req rbacv1.PolicyRule) string {
+func checkBoundedRBAC(allow []rbacv1.PolicyRule, req ...rbacv1.PolicyRule) string {
 	ctx := context.Background()
 	gotAllow, err := Expand(ctx, allow...)
 	if err != nil {
@@ -124,11 +124,11 @@ func checkBoundedRBAC(allow []rbacv1.PolicyRule, req rbacv1.PolicyRule) string {
 	if want := refExpand(allow...); !reflect.DeepEqual(gotAllow, want) {
 		return fmt.Sprintf("Expand(allow) = %v, want %v", gotAllow, want)
 	}
-	gotReq, err := Expand(ctx, req)
+	gotReq, err := Expand(ctx, req...)
 	if err != nil {
 		return "Expand(request) failed: " + err.Error()
 	}
-	wantReq := refExpand(req)
+	wantReq := refExpand(req...)
 	if !reflect.DeepEqual(gotReq, wantReq) {
 		return fmt.Sprintf("Expand(request) = %v, want %v", gotReq, wantReq)
 	}
@@ -154,7 +154,7 @@ func checkBoundedRBAC(allow []rbacv1.PolicyRule, req rbacv1.PolicyRule) string {
 		}
 		return nil
 	})}
-	rejected, err := NewClusterRoleBackedValidator(c, "allowed").ValidatePermissionRequests(ctx, req)
+	rejected, err := NewClusterRoleBackedValidator(c, "allowed").ValidatePermissionRequests(ctx, req...)
 	if err != nil {
 		return "ValidatePermissionRequests failed: " + err.Error()
 	}
@@ -209,6 +209,28 @@ func TestVerifBoundedRBAC(t *testing.T) {
 			}
 		}
 	}
+	// Lists of two requests: what one request says (its resource names in particular, where an
+	// empty list means every name) must not carry over to the next. Every ordered pair of
+	// requests and every single allow rule over rules that differ in their names and URLs only.
+	seqTriples := 0
+	var seqRules []rbacv1.PolicyRule
+	for _, ns := range [][]string{nil, {"na"}, {"nb"}, {"*"}, {"na", "nb"}} {
+		for _, us := range [][]string{nil, {"/u"}} {
+			seqRules = append(seqRules, rbacv1.PolicyRule{APIGroups: []string{"ga"}, Resources: []string{"ra"}, ResourceNames: ns, Verbs: []string{"va"}, NonResourceURLs: us})
+		}
+	}
+	for _, a := range seqRules {
+		for _, q1 := range seqRules {
+			for _, q2 := range seqRules {
+				seqTriples++
+				if msg := checkBoundedRBAC([]rbacv1.PolicyRule{a}, q1, q2); msg != "" {
+					rep, _ := json.Marshal(map[string]any{"allow": []rbacv1.PolicyRule{a}, "requests": []rbacv1.PolicyRule{q1, q2}, "failure": msg})
+					t.Errorf("VERIF-REPRODUCED %s", rep)
+					return
+				}
+			}
+		}
+	}
 	rng := rand.New(rand.NewSource(seed))
 	two := boundedRules("a", "b")
 	for s := 0; s < samples; s++ {
@@ -219,6 +241,6 @@ func TestVerifBoundedRBAC(t *testing.T) {
 			return
 		}
 	}
-	rep, _ := json.Marshal(map[string]any{"rule_shapes": len(rules), "allow_request_pairs_checked": pairs, "subresource_pairs_checked": subPairs, "stride": stride, "sampled_two_allow_rule_triples": samples, "seed": seed})
+	rep, _ := json.Marshal(map[string]any{"rule_shapes": len(rules), "allow_request_pairs_checked": pairs, "subresource_pairs_checked": subPairs, "two_request_triples_checked": seqTriples, "stride": stride, "sampled_two_allow_rule_triples": samples, "seed": seed})
 	fmt.Printf("VERIF-BOUNDED %s\n", rep)
 }
